@@ -11,4 +11,5 @@ import (
 	_ "verif/checks/c09"
 	_ "verif/checks/c11"
 	_ "verif/checks/c13"
+	_ "verif/checks/c18"
 )
